@@ -384,6 +384,12 @@ def _wire_ints(ch: Checker, prog: Program) -> None:
                         if not pos or p.exit_kind != 'return':
                             continue
                         facts = [(a, b) for (a, b) in list(allfacts(p).items()) if a.replace(' ', '') in ('%s<0' % tname, '%s>=0' % tname, '0<=%s' % tname, '0>%s' % tname)]
+                        # an equivalent guard: the token handed to int() was established to consist of digits / letters only (no sign)
+                        src_txt = norm(Sym(p).value(src, pos[0])).replace(' ', '')
+                        for a, b in allfacts(p, pos[0]).items():
+                            a2 = a.replace(' ', '')
+                            if b is True and any(a2 == '%s.%s()' % (src_txt, m_) or a2 == '%s.%s()' % (norm(src).replace(' ', ''), m_) for m_ in ('isalnum', 'isdigit', 'isxdigit', 'isdecimal')):
+                                facts.append((a, b))
                         if not facts:
                             ok = False
                             wit = p.describe()
